@@ -235,6 +235,7 @@ func runC06(c *Ctx) {
 	}
 	var cases []faultCase
 	var specs []*TASpec
+	faultClassCount := map[string]int{}
 	for i, p := range progs {
 		ref := refs[i]
 		r.hist("ref_final_" + finalClass(ref.Final))
@@ -279,6 +280,41 @@ func runC06(c *Ctx) {
 			}
 			rest := all[npf:]
 			c.Rng.Shuffle(len(rest), func(a, b int) { rest[a], rest[b] = rest[b], rest[a] })
+			// stratified: prefer (phase, fork shape, manifestation) classes that have been injected least so far
+			forksOf := map[string]int{}
+			for _, j := range jobs {
+				if strings.HasSuffix(j, ".split") || strings.HasSuffix(j, ".chnk0.main") || strings.HasSuffix(j, ".chnk00.main") {
+					forksOf[nodePathOfJob(j[:strings.LastIndex(j, ".")])]++
+				}
+			}
+			classOf := func(x jk) string {
+				phase := x.j[strings.LastIndex(x.j, ".")+1:]
+				fq := x.j
+				shape := "single"
+				if i := strings.Index(fq, ".fork"); i >= 0 {
+					f := fq[i+1:]
+					if k := strings.Index(f, "."); k >= 0 {
+						f = f[:k]
+					}
+					switch {
+					case strings.ContainsAny(f[4:], "_/") && strings.Contains(f[4:], "fork"):
+						shape = "nested"
+					case forksOf[nodePathOfJob(fq[:strings.LastIndex(fq, ".")])] > 1 && (f == "fork0" || f == "fork00"):
+						shape = "first-of-many"
+					case forksOf[nodePathOfJob(fq[:strings.LastIndex(fq, ".")])] > 1:
+						shape = "other-of-many"
+					}
+				}
+				return phase + "|" + shape + "|" + x.k
+			}
+			sort.SliceStable(rest, func(a, b int) bool { return faultClassCount[classOf(rest[a])] < faultClassCount[classOf(rest[b])] })
+			for i := range rest {
+				if npf+i >= perProg {
+					break
+				}
+				// re-sort lazily: count as we take
+				faultClassCount[classOf(rest[i])]++
+			}
 			all = all[:perProg]
 			if npf > 0 {
 				r.hist("fault_on_preflight_programs")
